@@ -87,15 +87,17 @@ def run(tier, seed):
     # fallow management different from the season's, fallow days simulated after a call boundary
     longs.insert(3, L.scenario("Barley", "ClayLoam", seed=seed + 58, seasons=2, off_season=True, lead=20, field={"mulches": True, "mulch_pct": 30, "f_mulch": 0.4},
                                fallow={"mulches": True, "mulch_pct": 90, "f_mulch": 0.9, "sr_inhb": True}, events=L.storm_events(2001, (1, 20), (60, 40, 80))))
+    # bunds on the fallow field only, a storm before planting, call boundaries while the water is standing
+    longs.insert(3, L.scenario("Maize", "Clay", seed=seed + 59, lead=50, fallow={"bunds": True, "z_bund": 0.25}, events=[{"date": "2001/03/10", "P": 90}, {"date": "2001/03/25", "P": 70}]))
     # a weather table whose columns are not in the canonical order (what a resumed call reads must be what the first call read)
     longs.insert(3, dict(L.scenario("Maize", "Loam", seed=seed + 57, seasons=2, irr={"method": 1, "kw": {"SMT": [50] * 4}}), _wx={"perm": [1, 0, 3, 2, 4], "extra_cols": [["Station", 0, "str"]], "index": "shifted"}))
     # ... and a share of the pairwise covering array over the configuration dimensions
     longs += L.pairwise_cases(seed, part=seed % 43, parts=43) if tier != "thorough" else L.pairwise_cases(seed, part=seed % 4, parts=4)
     nl = 40 if tier == "thorough" else 3
     for k, sc in enumerate(longs):
-        if k >= 9:
+        if k >= 10:
             nl = 6 if tier == "thorough" else 2          # covering-array runs: fewer slicings each
-        if (tier != "thorough") and k in (7, 8):
+        if (tier != "thorough") and k in (8, 9):
             continue                                     # (the thorough tier's extra hand-made runs)
         base = len(jobs)
         jobs.append({"kind": "plain", "scenario": sc})
